@@ -158,6 +158,81 @@ def case_from_points(ctx):
     ctx.require("from_points:symmetric", ctx.all([ctx.eq(A[i][j], A[j][i]) for i in range(3) for j in range(i)]))
 
 
+FT_CONFIGS = [([(1, 1), (-1, 1), (-1, -1), (1, -1)], (1, 1)), ([(0, 0), (2, 0), (3, 2), (0, 1)], (1, -2)), ([(1, 0), (0, 2), (-2, 1), (0, -1)], (0, 1))]
+
+
+def mk_from_tangent(k):
+    """four lattice points, tangent line with lattice direction and a free real offset t (both the real-conic branch and the complex fall-back
+    branch - no real conic through the points touches the line - are paths of the query)"""
+    def case(ctx):
+        from geometer import Conic, Point, Line
+        pts, (n0, n1) = FT_CONFIGS[k]
+        t = ctx.real("t")
+        l = [n0, n1, -t]
+        for (x, y) in pts:
+            ctx.assume(ctx.neg(ctx.is_zero(n0 * x + n1 * y - t)))
+        C = Conic.from_tangent(Line(mk_array(ctx, l)), *[Point(ctx.const([x, y, 1], float)) for x, y in pts])
+        A = R.mat(C.array)
+        ctx.require("from_tangent:nonzero", R.nonzero(ctx, _flat(A)))
+        for i, (x, y) in enumerate(pts):
+            q = [x, y, 1]
+            ctx.require(f"from_tangent:contains[{i}]", ctx.is_zero(R.dot(q, R.matvec(A, q))))
+        ctx.require("from_tangent:tangent-to-the-line", ctx.is_zero(R.dot(l, R.matvec(R.adjugate(A), l))))
+    return case
+
+
+FC_POINTS = [[(0, 0), (2, 0), (3, 2), (0, 1)], [(1, 1), (-1, 1), (-1, -1), (1, -1)], [(1, 0), (0, 2), (-2, 1), (0, -1)]]
+
+
+def mk_from_crossratio(k):
+    """four lattice points and a fifth point e = (s, 5) with a free real abscissa: the conic built from the cross ratio (a,b;c,d) seen from e is the conic through the five points"""
+    def case(ctx):
+        from geometer import Conic, Point
+        pts = [[x, y, 1] for x, y in FC_POINTS[k]]
+        s_ = ctx.real("s")
+        e = [s_, 5, 1]
+        a, b, c, d = pts
+        den = R.det([e, a, d]) * R.det([e, b, c])
+        for i, j, l in itertools.combinations(range(5), 3):
+            allp = pts + [e]
+            ctx.assume(ctx.neg(ctx.is_zero(R.det([allp[i], allp[j], allp[l]]))))
+        cr = R.det([e, a, c]) * R.det([e, b, d]) / den
+        P = [Point(ctx.const(q, float)) for q in pts]
+        C1 = Conic.from_crossratio(cr, *P)
+        A1 = R.mat(C1.array)
+        ctx.require("from_crossratio:nonzero", R.nonzero(ctx, _flat(A1)))
+        for i, q in enumerate(pts + [e]):
+            ctx.require(f"from_crossratio:contains[{i}]", ctx.is_zero(R.dot(q, R.matvec(A1, q))))
+        C2 = Conic.from_points(*P, Point(mk_array(ctx, e)))
+        ctx.require("from_crossratio:agrees-with-from_points", R.proportional(ctx, _flat(A1), _flat(R.mat(C2.array))))
+    return case
+
+
+FF_FOCI = [((-1, 0), (1, 0)), ((0, 0), (3, 1)), ((1, 2), (1, -2))]
+
+
+def mk_from_foci(k):
+    """lattice foci, boundary point (s, 2) with a free real abscissa: the conic passes through the boundary point and the four isotropic lines
+    through the foci (f v I, f v J) are tangent to it (the projective definition of a focus)"""
+    def case(ctx):
+        from geometer import Conic, Point
+        from geometer.point import I, J
+        (f1, f2) = FF_FOCI[k]
+        s_ = ctx.real("s")
+        b = [s_, 2, 1]
+        C = Conic.from_foci(Point(ctx.const([f1[0], f1[1], 1], float)), Point(ctx.const([f2[0], f2[1], 1], float)), Point(mk_array(ctx, b)))
+        A = R.mat(C.array)
+        ctx.require("from_foci:nonzero", R.nonzero(ctx, _flat(A)))
+        ctx.require("from_foci:contains-the-boundary-point", ctx.is_zero(R.dot(b, R.matvec(A, b))))
+        adj = R.adjugate(A)
+        Ie, Je = E(I.array), E(J.array)
+        for name, f in (("f1", f1), ("f2", f2)):
+            for iso, v in (("I", Ie), ("J", Je)):
+                t = R.cross3([f[0], f[1], 1], v)
+                ctx.require(f"from_foci:isotropic-line-{name}{iso}-is-tangent", ctx.is_zero(R.dot(t, R.matvec(adj, t))))
+    return case
+
+
 def custom_cone_cylinder(tier, seed):
     """every octant of the axis direction: constructed points of the Cartesian locus lie on the quadric, points off it do not (concrete)"""
     from geometer import Cone, Cylinder, Point
@@ -207,6 +282,52 @@ def custom_cone_cylinder(tier, seed):
     return res
 
 
+def custom_from_foci(tier, seed):
+    """supplementary, NOT a solver verdict (the symbolic case from_foci_lattice*_free_boundary_point is undecided: nested complex radicals): concrete
+    evaluation of Conic.from_foci on lattice foci x lattice boundary points: the conic passes through the boundary point and .foci returns the two foci"""
+    from geometer import Conic, Point
+    t0 = time.time()
+    res = {"paths": 0, "forks": 0, "obligations": 0, "ob_total": 0, "violations": [], "inconclusive": [], "samples": [], "by_step": {"evaluated": 0},
+           "outcomes": {}, "reach": {}, "validated": 0, "solver_time": 0.0}
+    seen = set()
+    foci = [((-1, 0), (1, 0)), ((0, 0), (3, 1)), ((1, 2), (1, -2)), ((-2, -1), (2, 3)), ((0, 0), (0, 4))]
+    bounds = [(x, y) for x in (-3, -1, 0, 2, 5) for y in (-2, 1, 3)]
+    for f1, f2 in foci:
+        # plus boundary points equidistant from the two foci (co-vertices of the ellipse): mid point + k * normal
+        mid2 = (f1[0] + f2[0], f1[1] + f2[1])
+        nrm = (-(f2[1] - f1[1]), f2[0] - f1[0])
+        eq = [((mid2[0] + k * nrm[0]) / 2, (mid2[1] + k * nrm[1]) / 2) for k in (-3, -1, 1, 2)]
+        for b in bounds + eq:
+            d1 = (b[0] - f1[0]) ** 2 + (b[1] - f1[1]) ** 2
+            d2 = (b[0] - f2[0]) ** 2 + (b[1] - f2[1]) ** 2
+            # on the line through the foci the conic degenerates (segment / rays): not a configuration in general position
+            if (f2[0] - f1[0]) * (b[1] - f1[1]) - (f2[1] - f1[1]) * (b[0] - f1[0]) == 0:
+                continue
+            cls = "equidistant" if d1 == d2 else "generic"
+            res["ob_total"] += 1
+            res["obligations"] += 1
+            res["by_step"]["evaluated"] += 1
+            bad = None
+            try:
+                C = Conic.from_foci(Point(*f1), Point(*f2), Point(*b))
+                if not bool(C.contains(Point(*b), tol=1e-6)):
+                    bad = f"from_foci[{cls}]:boundary-point-not-on-conic"
+                else:
+                    F = [np.real_if_close(x.normalized_array, tol=1e6) for x in C.foci]
+                    want = [np.array([f1[0], f1[1], 1.0]), np.array([f2[0], f2[1], 1.0])]
+                    ok = len(F) == 2 and all(any(np.abs(np.asarray(g, dtype=complex) - w).max() < 1e-6 for g in F) for w in want)
+                    if not ok:
+                        bad = f"from_foci[{cls}]:foci-differ"
+            except Exception as e:
+                bad = f"from_foci[{cls}]:{type(e).__name__}"
+            if bad and bad not in seen:
+                seen.add(bad)
+                res["violations"].append({"case": "from_foci_lattice", "obligation": bad, "env": {"f1": str(f1), "f2": str(f2), "bound": str(b)}, "replay": {"failed": [bad]}})
+    res["paths"] = res["ob_total"]
+    res["wall"] = time.time() - t0
+    return res
+
+
 def cases(tier, seed):
     Q, T = ("quick", "thorough"), ("thorough",)
     cs = []
@@ -219,5 +340,12 @@ def cases(tier, seed):
     add("int_centre_float_radius", case_sphere_int_center, tiers=Q)
     add("int_weighted_centre_int_radius", case_int_weighted_centre, tiers=Q)
     add("from_points", case_from_points, tiers=Q, max_paths=3000)
+    for k in range(len(FT_CONFIGS)):
+        add(f"from_tangent_lattice{k}_free_offset", mk_from_tangent(k), tiers=Q, max_paths=3000)
+    for k in range(len(FC_POINTS)):
+        add(f"from_crossratio_lattice{k}_free_fifth_point", mk_from_crossratio(k), tiers=Q, max_paths=3000)
+    for k in range(len(FF_FOCI)):
+        add(f"from_foci_lattice{k}_free_boundary_point", mk_from_foci(k), tiers=("attempt",), max_paths=3000)
+    cs.append(Case("from_foci_lattice", custom_from_foci, kind="custom"))
     cs.append(Case("cone_cylinder_octants", custom_cone_cylinder, kind="custom"))
     return cs
